@@ -16,7 +16,7 @@ OPS = [
     (r"&&", "||"), (r"\|\|", "&&"), (r"\btrue\b", "false"), (r"\bfalse\b", "true"), (r"!self\.", "self."), (r"if !", "if "),
     (r"\b0\b", "1"), (r"\b1\b", "0"), (r"\b1\b", "2"), (r"Ordering::AcqRel", "Ordering::Relaxed"), (r"Ordering::Acquire", "Ordering::Relaxed"), (r"Ordering::Release", "Ordering::Relaxed"),
     (r"\.max\(", ".min("), (r"\.min\(", ".max("), (r"\.is_some\(\)", ".is_none()"), (r"\.is_none\(\)", ".is_some()"),
-    ("DELETE", None),
+    ("DELETE", None), ("DELETE", None), ("SWAP", None), ("SWAP", None), ("GUARD", None), ("NEGATE", None),
 ]
 
 
@@ -52,6 +52,32 @@ def gen(n, seed, sub):
             if not (s.endswith(";") and "(" in s and not s.startswith(("let ", "return", "pub ", "fn ", "const ", "static ", "type ", "break", "continue")) and "=" not in s.split("(")[0]):
                 continue
             new = l[: len(l) - len(l.lstrip())] + "// " + s
+        elif pat == "SWAP":
+            # exchange two adjacent simple statements (same indentation, both end with ';', neither a `let`)
+            nxt = [x for x in lines if x[0] == f and x[1] == i + 1]
+            if not nxt:
+                continue
+            l2 = nxt[0][2]
+            ind = lambda z: len(z) - len(z.lstrip())
+            simple = lambda z: z.strip().endswith(";") and not z.strip().startswith(("let ", "return", "break", "continue", "}", "pub ", "const ")) and z.count("(") == z.count(")")
+            if not (simple(l) and simple(l2) and ind(l) == ind(l2)) or l.strip() == l2.strip():
+                continue
+            new = l2 + "\n" + l
+            key = (f, i, "SWAP")
+            if key in seen:
+                continue
+            seen.add(key)
+            muts.append({"file": f, "line": i, "old": l, "new": new, "span": 2, "old2": l2})
+            continue
+        elif pat == "GUARD":
+            if not re.match(r"^\s*if .*\{ ?return .*; ?\}\s*$", l):
+                continue
+            new = l[: len(l) - len(l.lstrip())] + "// " + l.strip()
+        elif pat == "NEGATE":
+            m = re.match(r"^(\s*)(if|while) (?!let )(.*) \{\s*$", l)
+            if not m or m.group(3).startswith("!("):
+                continue
+            new = "%s%s !(%s) {" % (m.group(1), m.group(2), m.group(3))
         else:
             ms = list(re.finditer(pat, l))
             if not ms:
@@ -76,7 +102,7 @@ def run(args):
     lines = open(p).read().split("\n")
     if lines[m["line"]] != m["old"]:
         return dict(m, status="stale")
-    lines[m["line"]] = m["new"]
+    lines[m["line"]: m["line"] + m.get("span", 1)] = [m["new"]]
     open(p, "w").write("\n".join(lines))
     env = dict(os.environ, CARGO_NET_OFFLINE="true", CARGO_TARGET_DIR=os.path.join(w, "target"))
     try:
@@ -114,7 +140,7 @@ def recheck(args):
     lines = open(p).read().split("\n")
     if lines[m["line"]] != m["old"]:
         return dict(m, status="stale")
-    lines[m["line"]] = m["new"]
+    lines[m["line"]: m["line"] + m.get("span", 1)] = [m["new"]]
     open(p, "w").write("\n".join(lines))
     import engine
     facts = engine.extract(w)
